@@ -216,6 +216,66 @@ def run(ctx):
                               required="rejected or extra bits ignored, never a fabricated signal")
         ctx.count("from_ports", "in-range masks" if wide_at is None else "negative mask" if masks[wide_at] < 0 else "mask beyond width")
         ctx.case(("ports", width, tuple(masks), big, str(mat)))
+    # ---- acquisitions with no samples at all: the mask rules are the same (a mask beyond the width is rejected or ignored, the
+    # signal count is the number of mask bits inside the port) ------------------------------------------------------------------
+    for width, base in ((8, np.uint8), (16, np.uint16), (32, np.uint32)):
+        for mask in (0, 1, (1 << width) - 1, 0x0F, 1 << width, (1 << (width + 1)) - 1, (1 << width) | 0x0F, 1 << (2 * width - 1), -1):
+            for big in (True, False):
+                for how in ("from_port", "from_ports", "list"):
+                    kw = {"bitorder": "big" if big else "little"}
+                    if how == "from_port":
+                        o = outcome(lambda: [W.from_port(np.array([], base), mask, **kw)])
+                    elif how == "from_ports":
+                        o = outcome(lambda: W.from_ports(np.empty((2, 0), base), [mask, mask], **kw))
+                    else:
+                        o = outcome(lambda: [W.from_port([], mask, **kw)])
+                    inside = bin(mask & ((1 << width) - 1)).count("1") if mask >= 0 else None
+                    ctx.case(("empty", width, mask, big, how))
+                    if mask < 0:
+                        if o[:2] != ("err", "ValueError"):
+                            ctx.violation(what="negative mask on an empty acquisition", how=how, width=width, mask=mask, observed=show(o)[:120], required="ValueError")
+                    elif how == "list":
+                        # a sequence takes its width from the mask: nothing to compare it with; it must simply have one signal per mask bit
+                        if o[0] == "ok" and (o[1][0].signal_count != bin(mask).count("1") or o[1][0].sample_count != 0):
+                            ctx.violation(what="empty sequence", mask=mask, observed=f"{o[1][0].signal_count} signals", required=f"{bin(mask).count('1')} signals, 0 samples")
+                    elif mask > (1 << width) - 1:
+                        if not (o[0] == "err" or all(w_.signal_count == inside and w_.sample_count == 0 for w_ in o[1])):
+                            ctx.violation(what="mask beyond port width on an empty acquisition", how=how, width=width, mask=mask, big=big,
+                                          observed=f"{[w_.signal_count for w_ in o[1]]} signals", required=f"rejected, or {inside} signals (extra bits ignored), never a fabricated signal")
+                    elif o[0] != "ok" or any(w_.signal_count != inside or w_.sample_count != 0 or w_.data.shape != (0, inside) for w_ in o[1]):
+                        ctx.violation(what="empty acquisition", how=how, width=width, mask=mask, big=big, observed=show(o)[:120] if o[0] != "ok" else f"{[w_.data.shape for w_ in o[1]]}",
+                                      required=f"(0, {inside})")
+    # ---- signals looked up by name and by position in any order give the same signals --------------------------------------------
+    for case in range(40 if ctx.quick else 1000):
+        width = rng.choice([8, 16])
+        base = {8: np.uint8, 16: np.uint16}[width]
+        mask = rng.choice([0x07, 0x0F, 0x35, 0xFF, rng.randrange(1, 1 << width)])
+        nsig = bin(mask).count("1")
+        vals = [rng.randrange(1 << width) for _ in range(rng.randint(1, 4))]
+        big = rng.random() < 0.5
+        names = [f"col{c}" for c in range(nsig)]                # NI_LineNames lists the data columns left to right
+        wv = W.from_port(np.array(vals, base), mask, bitorder="big" if big else "little", extended_properties={"NI_LineNames": ", ".join(names)})
+        rows = expected_rows(vals, width, mask, big)
+        order = [("name", names[rng.randrange(nsig)]) for _ in range(rng.randint(0, 2))] + [("int", rng.randrange(-nsig, nsig)) for _ in range(rng.randint(1, 3))]
+        rng.shuffle(order)
+        order += [("iter", None), ("name", names[0]), ("int", 0), ("slice", None)]
+        for kind, key in order:
+            if kind == "name":
+                sg = [wv.signals[key]]; want_cols = [names.index(key)]
+            elif kind == "int":
+                sg = [wv.signals[key]]; want_cols = [nsig - 1 - (key % nsig)]
+            elif kind == "iter":
+                sg = list(wv.signals); want_cols = [nsig - 1 - i for i in range(nsig)]
+            else:
+                sg = list(wv.signals[0:nsig]); want_cols = [nsig - 1 - i for i in range(nsig)]
+            for s_, c in zip(sg, want_cols):
+                got = (s_.column_index, s_.signal_index, [int(x) for x in s_.data], s_.name)
+                want = (c, nsig - 1 - c, [r[c] for r in rows], names[c])
+                if got != want:
+                    ctx.violation(what="signals[...] after lookups by name and by position", mask=mask, big=big, lookups=str(order)[:160], key=f"{kind}:{key}",
+                                  observed=str(got)[:200], required=str(want)[:200])
+                    break
+        ctx.case(("lookup-order", mask, big, str(order)[:80]))
     # ---- translation validation of the regenerated kernels --------------------------------------------------------
     tvc = [("Port.bit_mask", [n], (lambda n=n: bit_mask(n)), True) for n in list(range(-3, 40)) + [64, 100]]
     mv = [0, 1, 255, 256, 65535, 65536, 2 ** 32 - 1, 2 ** 32, 2 ** 40, -1, -256, 0x1FF, 0xDEADBEEF] + \
